@@ -305,6 +305,15 @@ def _oracle(kind, site, occurrence, engine, started, drive, injected, result, fa
                 if mine.get(key) != baseline_outcome.get(key):
                     violate('pauseplay_not_controllable', f'{key}: {mine.get(key)!r} != fault-free {baseline_outcome.get(key)!r}')
                     break
+            else:
+                # "never half-transitioned": the transition that the failing hook accompanied is neither lost nor made
+                # twice - the user code executed is that of the fault-free run
+                got = [e[:3] for e in common.user_trace(engine.world.events)]
+                want = [e[:3] for e in common.user_trace(baseline_events)]
+                if got != want and baseline_drive == 'terminated':
+                    diff = common.first_difference(got, want)
+                    violate('pauseplay_half_transitioned', f'after the failing pause/play hook the executed steps differ from the '
+                                                           f'fault-free run at #{diff[0] if diff else "?"}: {got} vs {want}')
         if task.done() and not task.cancelled() and task.exception() is not None:
             violate('stepping_raised', f'step_until_terminated() ended with {task.exception()!r}')
         return
